@@ -28,7 +28,9 @@ impl Module for Node {
     fn at_sim_start(&mut self, st: usize) {
         self.log.lock().unwrap().push(format!("start:{}:{}", self.path, st));
         if st == 0 {
-            self.ids.lock().unwrap().insert(self.path.clone(), format!("{:?}", current().id()));
+            if self.ids.lock().unwrap().get(&self.path) != Some(&format!("{:?}", current().id())) {
+                self.log.lock().unwrap().push(format!("start:{}:has-another-id-than-the-declared-module", self.path));
+            }
             // keeps the simulation busy so that "after the last event" is observable
             schedule_in(Message::default().kind(1), Duration::from_secs(1 + self.path.len() as u64));
         }
@@ -86,7 +88,7 @@ struct Case {
     parent: Vec<Option<usize>>,
     /// builder insertion order
     order: Vec<usize>,
-    /// number of start stages per node (1..=3)
+    /// number of start stages per node (0..=3)
     stages: Vec<usize>,
     /// after every insertion every path inserted so far is offered again, and an orphan is
     /// offered; each offer must be rejected and must leave the builder as it was
@@ -152,6 +154,11 @@ fn run_inner(c: &Case) -> Result<u64, String> {
             }
         }
     }
+    // the declared modules, as the builder knows them
+    for p in &ps {
+        let id = sim.get(&p.as_str().into()).map(|m| format!("{:?}", m.id())).ok_or(format!("builder lookup of '{p}' failed"))?;
+        ids.lock().unwrap().insert(p.clone(), id);
+    }
     let r = Builder::seeded(1).quiet().build(sim.freeze()).run();
     if r.is_err() != c.fail_end.is_some() {
         return Err(format!("run returned {} although {}", if r.is_err() { "an error" } else { "Ok" }, if c.fail_end.is_some() { "a module's at_sim_end reported one" } else { "no module reported one" }));
@@ -192,7 +199,7 @@ fn run_inner(c: &Case) -> Result<u64, String> {
         return Err(format!("tree {ps:?}: at_sim_end log {ge:?}, expected exactly once per module with matching parent/child/path/name lookups {ee:?}"));
     }
     let first_end = got.iter().position(|s| s.starts_with("end")).unwrap_or(got.len());
-    if got[first_end..].iter().any(|s| !s.starts_with("end")) || got[..first_end].iter().filter(|s| s.starts_with("event")).count() != n {
+    if got[first_end..].iter().any(|s| !s.starts_with("end")) || got[..first_end].iter().filter(|s| s.starts_with("event")).count() != c.stages.iter().filter(|s| **s > 0).count() {
         return Err(format!("tree {ps:?}: at_sim_end must run after the last event; log {got:?}"));
     }
     let first_event = got.iter().position(|s| s.starts_with("event")).unwrap_or(got.len());
@@ -238,7 +245,7 @@ impl Property for C12 {
     }
     fn rule(&self, tier: Tier) -> String {
         format!(
-            "every rooted forest with 1..={} nodes (names a, ab, b, a1, abc, c: prefix-sharing siblings and parent/child names) x every linear extension of parent-before-child as insertion order x every assignment of 1..3 start stages (for up to {} nodes; larger trees: all assignments with at most 2 nodes deviating from 1 stage); \
+            "every rooted forest with 1..={} nodes (names a, ab, b, a1, abc, c: prefix-sharing siblings and parent/child names) x every linear extension of parent-before-child as insertion order x every assignment of 0..3 start stages (a module declaring none is never started; for up to {} nodes; larger trees: all assignments with at most 2 nodes deviating from 1 stage); \
              oracle: at_sim_start log == stage-major, depth-first pre-order with siblings in creation order, exactly once per declared stage, all before the first event; at_sim_end exactly once per module after the last event; parent()/child()/path()/name() agree with the declared tree, and the module a lookup returns is the declared one (same id as that module sees for itself); \
              duplicate path and missing parent rejected at depths 1..3; per (forest, insertion order) one more run in which, after every insertion, every path inserted so far and an orphan are offered again: each offer must be rejected and the run must be unchanged; and one run in which one module's at_sim_end returns an error: run() reports it and every module is still torn down exactly once; non-trivial = forest with at least 3 nodes",
             tier.pick(5, 6),
@@ -249,7 +256,7 @@ impl Property for C12 {
         vec!["modules are created through the simulation builder (Sim::node); NDL-built trees are C18's subject".into()]
     }
     fn required_features(&self, _tier: Tier) -> Vec<&'static str> {
-        vec!["interleaved_children_of_different_parents", "multi_stage_module", "depth_three_tree", "builder_rejections", "several_roots", "rejected_offers_between_insertions", "tear_down_reporting_an_error"]
+        vec!["interleaved_children_of_different_parents", "multi_stage_module", "depth_three_tree", "builder_rejections", "several_roots", "rejected_offers_between_insertions", "tear_down_reporting_an_error", "module_without_start_stage"]
     }
     fn explore(&self, ctx: &mut Ctx) {
         if ctx.is_first_shard() {
@@ -280,19 +287,19 @@ impl Property for C12 {
             // stage assignments
             let mut stage_sets: Vec<Vec<usize>> = vec![];
             if n <= 4 {
-                for code in 0..3usize.pow(n as u32) {
+                for code in 0..4usize.pow(n as u32) {
                     let mut c = code;
-                    stage_sets.push((0..n).map(|_| { let s = c % 3 + 1; c /= 3; s }).collect());
+                    stage_sets.push((0..n).map(|_| { let s = [1, 2, 3, 0][c % 4]; c /= 4; s }).collect());
                 }
             } else {
                 stage_sets.push(vec![1; n]);
                 for i in 0..n {
-                    for si in [2, 3] {
+                    for si in [0, 2, 3] {
                         let mut s = vec![1; n];
                         s[i] = si;
                         stage_sets.push(s.clone());
                         for j in (i + 1)..n {
-                            for sj in [2, 3] {
+                            for sj in [0, 2, 3] {
                                 let mut s2 = s.clone();
                                 s2[j] = sj;
                                 stage_sets.push(s2);
@@ -342,6 +349,9 @@ impl Property for C12 {
                         }
                         if stages.iter().any(|s| *s > 1) {
                             ctx.hit("multi_stage_module");
+                        }
+                        if stages.contains(&0) {
+                            ctx.hit("module_without_start_stage");
                         }
                         if depth3 {
                             ctx.hit("depth_three_tree");
